@@ -1,7 +1,11 @@
 (* C12/Proofs_flash.v — Bootloader._internal_flash: the page loop keeps the invariant
    "pages flushed so far hold the image prefix, buffer pages 0..ctr-1 hold the next ctr pages,
     nothing outside the image's page range has changed, no command was out of range". *)
-From CF Require Import Common.Bytes C12.Model C12.Lists C12.Proofs_upload C12.Proofs_write.
+From CF Require Import Common.Bytes.
+From CF Require Import C12.Model.
+From CF Require Import C12.Lists.
+From CF Require Import C12.Proofs_upload.
+From CF Require Import C12.Proofs_write.
 From Coq Require Import ZifyBool.
 Open Scope Z_scope.
 
